@@ -194,7 +194,7 @@ Proof.
   unfold bindM at 1. unfold bindM at 1.
   rewrite (honest_read tg st [134] (ft_mem tg 134)); try assumption;
     [ | repeat constructor; lia | cbn; lia | reflexivity | rewrite (len16 _ (H16 134)); reflexivity ].
-  set (ckv := le16 (Z.min (nth 0 (ft_mem tg 134) 0 + 256 * nth 1 (ft_mem tg 134) 0 + 1) 65535) ++ zeros 14).
+  set (ckv := lites_ckv_block (ft_mem tg 134)).
   assert (Hsys : forall tgx, ft_mem tgx 136 = mc -> mc_sys_open tgx = true)
     by (intros tgx Hx; unfold mc_sys_open; rewrite Hx, Hmc; reflexivity).
   unfold bindM at 1.
